@@ -15,7 +15,7 @@ use tokio::{
     io::{AsyncWriteExt, BufWriter},
     sync::mpsc::{channel, Receiver, Sender},
 };
-use tracing::info;
+use tracing::{info, warn};
 
 #[cfg(unix)]
 use tokio::signal::unix::{signal, SignalKind};
@@ -133,7 +133,15 @@ async fn log_thread(
     loop {
         let e = rx.recv().await.ok_or_else(|| err_msg("dequeue"))?;
         if let Some(e) = e {
-            let mut line = format.to_string(e).context("deserializer error")?;
+            // a record that cannot be formatted (e.g. the format script divides by zero for this request) must not end
+            // the writer task: its end takes the whole proxy down
+            let mut line = match format.to_string(e.clone()) {
+                Ok(line) => line,
+                Err(err) => {
+                    warn!("access log: unable to format record {}: {}", e.id, err);
+                    format!("connection {}: log format error: {}", e.id, err)
+                }
+            };
             line += "\r\n";
             stream
                 .write(line.as_bytes())
